@@ -1302,8 +1302,36 @@ func (e *Env) applyMangle(op *Op) []string {
 		return skip()
 	}
 	sigs, _ := env["signatures"].([]any)
-	extra := []map[string]any{{"keyid": "", "sig": "!!! not base64 !!!"}, {"keyid": "x", "sig": "AAAA"}, {"keyid": "", "sig": ""}}[int(op.N)%3]
-	env["signatures"] = append(sigs, extra)
+	switch {
+	case op.N == 3 && len(op.S.DSSE) > 0:
+		// an extra entry whose hint names another key (one the verifier may well be given) over bytes
+		// that key never produced
+		kid := ""
+		var other map[string]any
+		if ob := foreignPayloadBlob(op.S.DSSE[0], "text/plain", []byte("x")); ob != nil && json.Unmarshal(ob, &other) == nil {
+			if ss, _ := other["signatures"].([]any); len(ss) > 0 {
+				if m, _ := ss[0].(map[string]any); m != nil {
+					kid, _ = m["keyid"].(string)
+				}
+			}
+		}
+		if kid == "" {
+			return skip()
+		}
+		env["signatures"] = append(sigs, map[string]any{"keyid": kid, "sig": "QUJDREVGR0hJSktMTU5PUFFSU1RVVldYWVo="})
+	case op.N == 4:
+		// the genuine entry without its hint (DSSE allows an empty keyid)
+		if len(sigs) == 0 {
+			return skip()
+		}
+		if m, _ := sigs[0].(map[string]any); m != nil {
+			m["keyid"] = ""
+		}
+		env["signatures"] = sigs
+	default:
+		extra := []map[string]any{{"keyid": "", "sig": "!!! not base64 !!!"}, {"keyid": "x", "sig": "AAAA"}, {"keyid": "", "sig": ""}}[int(op.N)%3]
+		env["signatures"] = append(sigs, extra)
+	}
 	nb, err := json.Marshal(env)
 	if err != nil {
 		return skip()
